@@ -216,6 +216,8 @@ fn configs(cli: &Cli) -> Vec<(Cfg, usize, u32, bool)> {
             v.push((Cfg { name: "C25/r2n3b0/h1".into(), max_height: 1, max_epoch: 2, ..base.clone() }, 400, 1, true));
             // fail-over after two blocks; the one deviation is a static cut of one replica from one node
             v.push((Cfg { name: "C25/r2n3b0/h2/standby".into(), max_crashes: 0, allow_release: false, expire_one: false, ..standby.clone() }, 400, 1, true));
+            // even node count: 2 nodes => the quorum must be 2 (a "majority" of N/2 would allow two disjoint quorums)
+            v.push((Cfg { name: "C25/r2n2b0/h1".into(), nodes: 2, max_height: 1, max_epoch: 2, ..base.clone() }, 400, 1, true));
         }
     }
     match cli.tier {
@@ -227,12 +229,15 @@ fn configs(cli: &Cli) -> Vec<(Cfg, usize, u32, bool)> {
             v.push((Cfg { name: "C25/r3n3b0/h1".into(), replicas: 3, max_height: 1, max_epoch: 2, ..base.clone() }, 400, 1, true));
             v.push((Cfg { name: "C25/r2n3b1/h2/standby".into(), budget: 1, ..standby.clone() }, 400, 1, true));
             v.push((Cfg { name: "C25/r2n3b0/h3/standby/trim2".into(), stream_max_len: 2, exact_trim: true, max_height: 3, standby_until: 3, max_crashes: 0, allow_release: false, ..standby.clone() }, 400, 1, true));
+            v.push((Cfg { name: "C25/r2n4b0/h1".into(), nodes: 4, max_height: 1, max_epoch: 2, ..base.clone() }, 400, 1, true));
             v.push((Cfg { name: "C25/r2n3b0/h1/d2".into(), max_height: 1, max_epoch: 2, max_partitions: 2, ..base.clone() }, 400, 2, true));
         }
     }
     // debugging knobs (never set by ./check)
     if let Some(i) = env("VH_ONLY") {
-        v = vec![v.remove(i as usize)];
+        if (i as usize) < v.len() {
+            v = vec![v.remove(i as usize)];
+        }
     }
     for (c, depth, devs, pre) in v.iter_mut() {
         if let Some(x) = env("VH_HEIGHT") {
@@ -288,7 +293,7 @@ fn main() {
         machinery_failure("replay: unknown subject");
     }
     let cfgs = configs(&cli);
-    let n_quick = configs(&Cli { tier: Tier::Quick, ..cli.clone() }).len();
+    let n_quick = if env("VH_ONLY").is_some() { 0 } else { configs(&Cli { tier: Tier::Quick, ..cli.clone() }).len() };
     let n_deep = cfgs.len().saturating_sub(n_quick).max(1) as u64;
     let mut run = Run::new(&cli, "model_checking");
     for (i, (cfg, depth, devs, pre)) in cfgs.into_iter().enumerate() {
